@@ -86,13 +86,21 @@ ASSUMPTIONS = [
     'stores (stop command, --stopcp): after a shutdown with reason AUTOMATIC '
     'the value is gone.  A configured [scheduling]stop after cycle point is '
     're-read from flow.cylc at every restart by design (documented with the '
-    'restart timeout) and is only required to be in force again.  An '
-    'AUTOMATIC shutdown right after the stop task reached a final state or '
-    'left the pool finished (or '
-    'with the stop task sitting finished in the pool) is attributed to the '
-    'stop task if the pool still held active or released waiting tasks (then '
-    'the stop point must have been kept); if nothing else remained to run '
-    'the cause is ambiguous and clause (3) is skipped from then on.',
+    'restart timeout) and is only required to be in force again.  '
+    '"Reached" = nothing at or before the stop point remains to run: an '
+    'AUTOMATIC shutdown decided (pool at the scheduler\'s AUTO stop '
+    'decision) while a stop task is set and an active or released waiting '
+    'task at or before the stop point is in the pool has not reached the '
+    'stop point; it is attributed to the stop task - which also fires when '
+    'it was named while already finished (failed / incomplete) in the pool '
+    'and is re-run later, class shutdown-by-stop-task-finished-before-named '
+    '- and the stop point must have been kept.  Otherwise, right after the '
+    'stop task reached a final state or left the pool finished (or with it '
+    'sitting finished in the pool, or with only tasks beyond the stop point '
+    'left to run) the cause is ambiguous and clause (3) is skipped from '
+    'then on.  The model drops the stop task at such shutdowns (the '
+    'scheduler consumes it when it fires) whether or not the stop point is '
+    'still being judged.',
     '"A clean stop waits for active jobs": active = task submitted/running '
     '(cylc\'s TASK_STATUSES_ACTIVE).  A task still preparing when the '
     'scheduler decides it can stop, whose jobs-submit command returns while '
@@ -277,6 +285,7 @@ class StopModel:
         self.now_active: dict = {}        # job key -> ident, left by stop --now
         self.recovering: dict = {}
         self.forgot = None                # old stop point just forgotten
+        self.auto_set = None              # pool at the last AUTO stop decision
         self.run_on = None
         self.launch_inc: dict = {}        # incarnation -> [(point, name)]
         self.requested = False
@@ -375,6 +384,10 @@ class StopModel:
             if self.explicit == 'now':
                 self.v('stop-now-killed-job',
                        f'job {ev["job"]} killed after stop --now')
+        elif kind == 'set-stop':
+            if ev.get('mode') == 'AUTO':
+                self.auto_set = {'inc': ev['inc'], 'it': ev['it'],
+                                 'pool': ev['pool']}
         elif kind == 'shutdown':
             self.on_shutdown(ev)
         elif kind == 'stopped':
@@ -384,11 +397,19 @@ class StopModel:
         sim = self.sim
         k = stop_kind(ev['reason'])
         self.classes.add('shutdown:' + k)
+        # the pool when the scheduler decided to stop by itself (it may wait
+        # for active jobs after that), else the pool at the shutdown
+        pool0 = ev['pool']
+        if k == 'auto' and self.auto_set is not None \
+                and self.auto_set['inc'] == ev['inc']:
+            pool0 = self.auto_set['pool']
+        self.auto_set = None
         rec = {'kind': k, 'it': ev['it'], 'inc': ev['inc'],
                'reason': ev['reason'],
                # tasks that rule out "nothing more to run" as the cause
                'blockers': [
-                   f'{t["cycle"]}/{t["name"]}' for t in ev['pool']
+                   (f'{t["cycle"]}/{t["name"]}', self.pt(t['cycle']))
+                   for t in pool0
                    if t['status'] in ('preparing', 'submitted', 'running')
                    or (t['status'] == 'waiting' and not t['runahead'])]}
         # the stop task sits in the pool in a final state (e.g. set after it
@@ -436,27 +457,40 @@ class StopModel:
         rec['db_stopcp'] = db.get('stopcp')
         self.explicit = None
         self.forgot = None
-        if not self.sure or 'stopcp' not in db:
-            return
-        want = self.to_str[self.S_cmd] if self.S_cmd is not None else None
-        if k == 'auto' and self.stop_task is not None and (
-                rec['stop_task_final_in_pool'] or (
-                    self.stop_task_final
-                    and self.stop_task_final_it >= rec['it'] - 1)):
-            # the stop task finished in the previous iteration (or sits
-            # finished in the pool)
-            if rec['blockers']:
-                # ... and there was more to run: the stop task caused this
-                # shutdown, the stop point has not been reached
+        # -- who caused an AUTOMATIC shutdown: kept up to date whether or
+        # not the stop point is still being judged (the scheduler consumes
+        # the stop task when it fires)
+        ambiguous = False
+        if k == 'auto' and self.stop_task is not None:
+            low = [b for b, p in rec['blockers'] if p <= self.eff()]
+            may = rec['stop_task_final_in_pool'] or (
+                self.stop_task_final
+                and self.stop_task_final_it >= rec['it'] - 1)
+            if low:
+                # something at or before the stop point was active or
+                # released when the scheduler decided to stop: the stop
+                # point has not been reached, the stop task (named while
+                # finished, or finished since) caused this shutdown
                 k = 'stop-task'
                 self.stop_task = None       # consumed
                 self.classes.add('shutdown-by-stop-task')
-            else:
-                # either cause possible (then the stop point may be kept)
-                self.sure = False
+                if not may:
+                    self.classes.add(
+                        'shutdown-by-stop-task-finished-before-named')
+            elif may or rec['blockers']:
+                # the stop task finished in the previous iteration (or sits
+                # finished in the pool) and nothing at or before the stop
+                # point remained: either cause possible (then the stop
+                # point may be kept)
+                ambiguous = True
                 self.stop_task = None
                 self.classes.add('auto-shutdown-cause-ambiguous')
-                return
+        self.stop_task_final = False
+        if ambiguous:
+            self.sure = False
+        if not self.sure or 'stopcp' not in db:
+            return
+        want = self.to_str[self.S_cmd] if self.S_cmd is not None else None
         if k == 'auto':
             if self.eff() < self.fcp:
                 self.classes.add('auto-shutdown-at-stop-point')
@@ -481,7 +515,6 @@ class StopModel:
                 self.classes.add('stop-point-pending-then-restart')
         else:
             self.sure = False
-        self.stop_task_final = False
 
     # -- command hooks ------------------------------------------------------
     def post(self, name, info, ev):
